@@ -22,3 +22,13 @@ Proof. exact order_refuted. Qed.
 Print Assumptions C08_order_refuted.
 (* the witness (writer 1 commits, writer 2 commits and posts, writer 1 posts) is KNOWN_FINDINGS KF-C08-order;
    the sched family replays it on the code and checks every schedule outside that window *)
+
+(* ... and the inversion needs exactly that window: in every schedule - any number of writers, feeds, runs,
+   deliveries, stops and resumes - in which a write's commit, feed-list snapshot and push are not separated by
+   other actions, nor a feed's backfill from its registration, every run of every feed has received its
+   events in strictly increasing CAS order *)
+From Rosmar Require Import FeedOrder.
+Theorem C08_order_holds_when_posting_is_atomic : forall bs f st, NoDup (starts bs) ->
+  nlookup f (feeds (frun_all (flat_map expand bs))) = Some st -> order_ok_feed st = true.
+Proof. exact order_holds_when_posting_is_atomic. Qed.
+Print Assumptions C08_order_holds_when_posting_is_atomic.
